@@ -42,9 +42,42 @@ def resolve(bindings: Dict[str, Any], package: Optional[str], ref: str) -> Any:
     if root_only and pk:
         return UNSPEC  # the statement does not speak about '.name' under a package
     levels = [[]] if root_only else [pk[:i] for i in range(len(pk), -1, -1)]
-    # a package prefix that is itself bound to a value: the statement does not determine the answer
-    for i in range(1, len(pk) + 1):
-        if ".".join(pk[:i]) in bindings:
+    # a package prefix that is itself bound to a value: the qualified name p.q.a... then has that binding as its longest bound prefix, and the rest of the
+    # package path and the reference are field selections on it ("the remaining components being applied as field selections"). Asserted only when
+    # the bound prefix is not ALSO a namespace of longer bound names (that combination is the recorded finding / not determined).
+    bound_prefixes = [pk[:i] for i in range(1, len(pk) + 1) if ".".join(pk[:i]) in bindings]
+    if bound_prefixes:
+        if len(bound_prefixes) > 1:
+            return UNSPEC
+        bp = bound_prefixes[0]
+        name = ".".join(bp)
+        if any(k != name and k.startswith(name + ".") for k in bindings):
+            return UNSPEC
+        for level in levels:
+            # longer (dotted) bindings at this level win over the map reached through the shorter prefix
+            if any(split(k)[: len(level)] == level and len(split(k)) > len(level) and split(k)[len(level)] == path[0] for k in bindings):
+                return UNSPEC if len(level) >= len(bp) else UNSPEC
+            if len(level) < len(bp):
+                continue  # this level lies above the bound prefix: ordinary lookup below
+            v = bindings[name]
+            ok = True
+            for comp in level[len(bp):] + [path[0]]:
+                if not isinstance(v, dict) or comp not in v:
+                    ok = False
+                    break
+                v = v[comp]
+            if not ok:
+                continue  # this level does not bind the head of the reference
+            resolve.selected = name
+            for comp in path[1:]:
+                if not isinstance(v, dict) or comp not in v:
+                    return ERR
+                v = v[comp]
+            return v
+        # no package level reached the reference through the map: the root level is an ordinary lookup among the other bindings
+        bindings = {k: v for k, v in bindings.items() if k != name}
+        levels = [[]]
+        if path[0] == bp[0]:
             return UNSPEC
     for level in levels:
         rel = {}
@@ -164,6 +197,17 @@ def exhaustive_resolution(run: common.Run, report) -> int:
                         for annotate in (False, True):
                             check_resolution(run, bindings, package, ref, annotate, report)
                             n += 1
+    # a leading part of the package bound as a nested MAP: the qualified name is reached through field selections on it
+    deep = {"q": {"c": 1, "r": {"c": 5, "d": {"e": 6}}}, "c": 2, "x": {"c": 7}}
+    for package, bindings in [
+        ("p.q", {"p": deep, "c": 3}), ("p.q", {"p": deep}), ("p.q", {"p": {"q": {"z": 0}, "c": 2}, "c": 3}), ("p.q", {"p": {"x": 1}, "c": 3}),
+        ("p.q.r", {"p": deep, "c": 3}), ("p.q.r", {"p.q": {"r": {"c": 5}, "c": 1}, "c": 3}), ("p.q.r", {"p.q": {"c": 1}, "c": 3}), ("p.q", {"p": 9, "c": 3}),
+    ]:
+        for ref in ["c", "c.d", "d.e", "r.c", "x.c", "z", "q.c"]:
+            for annotate in (False, True):
+                check_resolution(run, bindings, package, ref, annotate, report)
+                run.event("package-prefix-bound-to-a-map")
+                n += 1
     return n
 
 
